@@ -18,7 +18,17 @@ from typing import Dict, List, Optional
 from .canon import _own_locals
 
 
+TRANSPARENT_DECORATORS = {"numba_util.jit", "jit", "numba.jit", "staticmethod", "classmethod", "property", "profile_func", "profile.profile_func"}
+
+
+def transparent(g) -> bool:
+    """only decorators that do not change what a call computes (a memoising decorator such as lru_cache / cached_property does: the helper is then NOT interchangeable with its body)"""
+    return all(d in TRANSPARENT_DECORATORS for d in g.decorators)
+
+
 def _is_new_private(g, ref) -> bool:
+    if not transparent(g):
+        return False
     if not g.name.startswith("_") or (g.name.startswith("__") and g.name.endswith("__")) or g.parent is not None:
         return False
     r = ref.get(g.module.relpath)
